@@ -392,6 +392,47 @@ def bounded(run):
                        FN, f"{ev} generated stacks, n_samples up to 1e6", ev, fails, ev)
 
 
+def _interval_oracle(rng, M):
+    """Deterministic check of the selection rule with the generator under contract (A-RNG) replaced by chosen draws: a draw u at
+    the midpoint of (cum[k-1], cum[k]] of the ascending cumulative volumes must select the k-th smallest grain, for the
+    smallest, middle and the largest grains, and u = 1 - 1e-12 must select the largest grain."""
+    import pydrex
+
+    real_rng = np.random.default_rng
+    f = rng.random(M) + 0.5
+    f /= f.sum()
+    O = rng.normal(size=(1, M, 3, 3))
+    O[0, :, 0, 0] = np.arange(M)
+    order = np.argsort(f, kind="stable")
+    fa = f[order]
+    cum = np.concatenate([[0.0], np.cumsum(fa)])
+    cum[-1] = 1.0
+    ks = sorted({0, min(1, M - 1), M // 2, max(0, M - 3), max(0, M - 2), M - 1})
+    us = [(cum[k] + cum[k + 1]) / 2 for k in ks] + [1 - 1e-12]
+    want = ks + [M - 1]
+
+    class Stub:
+        def random(self, n, *a, **k):
+            out = np.full(n, us[-1])
+            out[: len(us)] = us
+            return out
+
+    msgs = []
+    try:
+        np.random.default_rng = lambda *a, **k: Stub()
+        o1, f1 = pydrex.resample_orientations(O, f[None, :], len(us) + 3, seed=1)
+    finally:
+        np.random.default_rng = real_rng
+    got = np.rint(o1[0, : len(us), 0, 0]).astype(int)
+    # ties in volume make the sorted position ambiguous: compare volumes, and identities only where the volume is unique
+    for j, (k, g_) in enumerate(zip(want, got)):
+        if not (0 <= g_ < M) or f1[0, j] != f[g_]:
+            msgs.append(f"M={M}: sample {j} is not paired with its own volume")
+        elif f[g_] != fa[k]:
+            msgs.append(f"M={M}: a draw in the interval of the {k}-th smallest grain (volume {fa[k]:.3e}) selected a grain of volume {f[g_]:.3e}")
+    return msgs[:2]
+
+
 def nat_sweep(seed, count):
     import pydrex
 
@@ -401,6 +442,8 @@ def nat_sweep(seed, count):
         ev += 1
         msgs = []
         try:
+            if it % 8 == 3:
+                msgs.extend(_interval_oracle(rng, int(rng.choice([1, 2, 7, 300, 70000, 250000]))))
             N = int(rng.choice([1, 3]))
             M = int(rng.choice([1, 2, 5, 40, 300])) if it % 16 else 70000
             ns = [None, 1, 7, 2000, 200000][it % 5] if M < 70000 else 20000
